@@ -82,6 +82,74 @@ Theorem C11_script_stable : forall cf os1 os2,
 Proof. exact script_stable. Qed.
 Print Assumptions C11_script_stable.
 
+(* ---- readers handed out by AsLargeBytes (reader-level operations: Read(n), Seek, several alive) ---- *)
+
+(* Full statement: a handed-out reader is moved only by the reads and seeks made on it; whatever
+   other readers, accessors and subset matches do in between, its cell is untouched. *)
+Definition touches (x : addr) (p : prim) : bool :=
+  match p with
+  | PReaderRead (HReader y) _ | PReaderSeek (HReader y) _ _ => addr_eqb x y
+  | _ => false
+  end.
+Definition C11_reader_independent (cf : cfg) : Prop :=
+  forall hs1 hs2, legalh cf pinit (hs1 ++ hs2) = true ->
+  forall x, known_b (kn (runh cf pinit hs1)) (HReader x) = true ->
+  forallb (fun p => negb (touches x p)) hs2 = true ->
+  hget (hp (runh cf pinit (hs1 ++ hs2))) x = hget (hp (runh cf pinit hs1)) x.
+
+(* Proved part (any configuration; on the repaired tree every reader of a stream-backed node is a
+   cursor): along a Legal history a cursor stays a cursor over the same source, the content that
+   source denotes does not change, and a read yields exactly content[offset:] of the cursor's OWN
+   offset field.  MISSING for the full statement: that no call other than a Read/Seek on the cursor
+   itself stores to the cursor's cell (its offset).  In the model only rd_read / rd_seekw on the
+   operand write a cursor cell, but the invariant treats every reader cell as "frozen up to its
+   position" and so does not record which reader a call may move; closing it needs reader cells as a
+   tag class of their own in Inv/Ext.  The harness checks exactly this on interleaved readers
+   (oracle class reader_not_independent). *)
+Theorem C11_reader_independent_partial : forall cf hs1 hs2,
+  legalh cf pinit (hs1 ++ hs2) = true ->
+  forall x src o1,
+  known_b (kn (runh cf pinit hs1)) (HReader x) = true ->
+  hget (hp (runh cf pinit hs1)) x = Some (CRdr (RdCursor src o1)) ->
+  exists o2,
+    hget (hp (runh cf pinit (hs1 ++ hs2))) x = Some (CRdr (RdCursor src o2)) /\
+    source_content (runh cf pinit (hs1 ++ hs2)) src = source_content (runh cf pinit hs1) src /\
+    forall k c, source_content (runh cf pinit (hs1 ++ hs2)) src = Done c ->
+      snd (pstep cf (runh cf pinit (hs1 ++ hs2)) (PReaderRead (HReader x) k))
+        = RDone (PAcc (XBytes (take_k k (skipn o2 c)) None)).
+Proof. exact reader_independent_partial. Qed.
+Print Assumptions C11_reader_independent_partial.
+
+Definition w_slice8 : slice := {| s_arr := Some (0, 0); s_off := 0; s_len := 8; s_cap := 8 |}.
+
+(* repaired configuration: reader (0,2) reads 3 bytes, a second reader of the same node seeks to the
+   end, the first goes on and gets the rest *)
+Definition w_readers : list prim :=
+  [PNewSlice [97; 98; 99; 100; 101; 102; 103; 104]%N; PNewStreamNode (HSlice w_slice8);
+   PLargeBytes (HNode (RStream (0, 1))); PReaderRead (HReader (0, 2)) (Some 3);
+   PLargeBytes (HNode (RStream (0, 1))); PReaderSeek (HReader (0, 3)) 0 SeekEnd].
+
+Example C11_readers_independent_repaired :
+  legalh cfg_repaired pinit w_readers = true /\
+  hget (hp (runh cfg_repaired pinit w_readers)) (0, 2) = Some (CRdr (RdCursor (0, 1) 3)) /\
+  snd (pstep cfg_repaired (runh cfg_repaired pinit w_readers) (PReaderRead (HReader (0, 2)) None))
+    = RDone (PAcc (XBytes [100; 101; 102; 103; 104]%N None)).
+Proof. vm_compute. repeat split. Qed.
+
+(* pinned configuration: AsLargeBytes hands out the node's one reader every time, so the "second"
+   reader's seek to the end leaves nothing for the first *)
+Definition w_readers_pinned : list prim :=
+  [PNewSlice [97; 98; 99; 100; 101; 102; 103; 104]%N; PNewStreamNode (HSlice w_slice8);
+   PLargeBytes (HNode (RStream (0, 1))); PReaderRead (HReader (0, 1)) (Some 3);
+   PLargeBytes (HNode (RStream (0, 1))); PReaderSeek (HReader (0, 1)) 0 SeekEnd].
+
+Theorem C11_reader_independent_refuted_pinned :
+  legalh cfg_pinned pinit w_readers_pinned = true /\
+  snd (pstep cfg_pinned (runh cfg_pinned pinit w_readers_pinned) (PReaderRead (HReader (0, 1)) None))
+    = RDone (PAcc (XBytes [] None)).
+Proof. vm_compute. split; reflexivity. Qed.
+Print Assumptions C11_reader_independent_refuted_pinned.
+
 (* ---- the pinned tree violates the full statement: streamBytes ---- *)
 
 Definition w_slice3 : slice := {| s_arr := Some (0, 0); s_off := 0; s_len := 3; s_cap := 3 |}.
